@@ -1393,6 +1393,11 @@ fn handle_fn(
                 log.push(format!("R13:{} `?` sites guarded", scan.tries.len()));
             }
             "match_str" => {
+                // `match_str N opt`: a body that has no such match is left as it is (the proof then decides what its absence means)
+                if e["opt"].as_bool().unwrap_or(false) && scan.str_matches.get(n).is_none() {
+                    log.push(format!("R5:string match {} absent (opt)", n));
+                    continue;
+                }
                 let m = scan
                     .str_matches
                     .get(n)
